@@ -2,6 +2,7 @@
 import re
 
 import serve_common as sc
+import x11fw
 import vf
 
 ADDRS = ["98.51.100.10", "98.51.100.200", "98.51.101.5", "98.77.0.1", "10.1.2.3", "98.51.0.9"]
@@ -44,3 +45,10 @@ def run(ctx, replay):
     sc.regression_model(ctx)
     sc.replay(ctx, "C19", fams, num=500 if not thorough else 6000, variants=2 if not thorough else 4)
     ecs_family(ctx, thorough)
+    # forwarder mode: what leaves toward a configured upstream carries no client option except the clamped ECS (Forward.tla)
+    ctx.overlay_tags.add("x11fw")
+    import os
+    ov = os.path.join(ctx.scratch, "overlay.json")
+    if os.path.exists(ov):
+        os.remove(ov)
+    x11fw.run_tier(ctx, families=("c19",))
